@@ -422,3 +422,23 @@ package stree
 //@   requires t != nil
 //@   ensures [C03] empty: t.root == nil ==> result == nil
 //@   ensures [C03] root: t.root != nil ==> result != nil && fresh(result) && len(result.path) == 1 && result.path[0] == t.root && pathOK(result)
+//@
+// In-order traversal: the keys of the subtree are yielded in strictly ascending rank order, each the stored
+// representative of its class, all of them when the callback never says stop (the count equals the node count).
+//@ func (*node).inorder
+//@   ghost cmp func(T, T) int
+//@   role f yield
+//@   requires [C01] treeOK(n, cmp)
+//@   ensures  [C01] count: ncalls(f) >= old(ncalls(f)) && ncalls(f) - old(ncalls(f)) <= cntOf(n) && (result ==> ncalls(f) - old(ncalls(f)) == cntOf(n))
+//@   ensures  [C01] members: forall j int :: {callarg(f, j)} old(ncalls(f)) <= j && j < ncalls(f) ==> inK(n, rank(cmp, callarg(f, j))) && callarg(f, j) == n.rep[rank(cmp, callarg(f, j))]
+//@   ensures  [C01] ascending: forall a int, b int :: {callarg(f, a), callarg(f, b)} old(ncalls(f)) <= a && a < b && b < ncalls(f) ==> rank(cmp, callarg(f, a)) < rank(cmp, callarg(f, b))
+//@   ensures  [C01] went: forall j int :: {callret(f, j)} old(ncalls(f)) <= j && j < ncalls(f) - 1 ==> callret(f, j)
+//@   ensures  [C01] stopped: !result ==> ncalls(f) > old(ncalls(f)) && !callret(f, ncalls(f) - 1)
+//@   ensures  [C01] finished: result ==> forall j int :: {callret(f, j)} old(ncalls(f)) <= j && j < ncalls(f) ==> callret(f, j)
+//@   modifies calls(f)
+//@   call inorder#1: cmp = cmp
+//@   loop 1: invariant [C01] shape: treeOK(old(n), cmp) && (n != nil ==> old(n) != nil && n in old(n).desc)
+//@   loop 1: invariant [C01] count: ncalls(f) >= old(ncalls(f)) && ncalls(f) - old(ncalls(f)) + cntOf(n) == cntOf(old(n))
+//@   loop 1: invariant [C01] members: forall j int :: {callarg(f, j)} old(ncalls(f)) <= j && j < ncalls(f) ==> inK(old(n), rank(cmp, callarg(f, j))) && callarg(f, j) == old(n).rep[rank(cmp, callarg(f, j))] && callret(f, j)
+//@   loop 1: invariant [C01] below: forall j int :: {callarg(f, j)} old(ncalls(f)) <= j && j < ncalls(f) ==> (forall k int :: {k in n.keys} inK(n, k) ==> rank(cmp, callarg(f, j)) < k)
+//@   loop 1: invariant [C01] ascending: forall a int, b int :: {callarg(f, a), callarg(f, b)} old(ncalls(f)) <= a && a < b && b < ncalls(f) ==> rank(cmp, callarg(f, a)) < rank(cmp, callarg(f, b))
